@@ -77,7 +77,7 @@ class World(BaseWorld):
         n = rc.randrange(2, 16) if tier != 'thorough' else rc.randrange(2, 36)
         w = {'bin': rc.uniform(2, 6), 'dot': rc.uniform(0.5, 2), 'invert': rc.uniform(0.3, 1.5), 'copy': rc.uniform(0.2, 1),
              'setitem': rc.uniform(0.3, 1.5), 'getitem': rc.uniform(0.2, 1), 'badtype': rc.uniform(0, 0.4),
-             'new_identity': rc.uniform(0, 0.8)}
+             'new_identity': rc.uniform(0, 0.8), 'index_api': rc.uniform(0.2, 1.0)}
         n_identity = rc.choice([0, 0, 1, 2])
         p_inplace = rc.uniform(0.2, 0.8)
         names = sorted(w)
@@ -94,11 +94,36 @@ class World(BaseWorld):
                 o.update(how=ro.choice(['dot', 'dot_inplace', 'matmul', 'imatmul']), j=ro.randrange(16),
                          selfop=ro.random() < 0.15)
             elif k == 'invert':
-                o.update(inplace=ro.random() < 0.5)
+                o.update(inplace=ro.choice([True, False, False, 'default']))
+            elif k == 'index_api':
+                o.update(which=ro.choice(['get', 'getMatrix', 'setMatrix']), a=ro.randrange(r), b=ro.randrange(r), l=ro.randrange(64))
             elif k in ('setitem', 'getitem'):
                 o.update(a=ro.randrange(r), b=ro.randrange(r), scalar=ro.random() < 0.2)
             elif k == 'badtype':
                 o.update(which=ro.choice(['get', 'set']), pos=ro.randrange(2), a=ro.randrange(r), bad=ro.choice(BADKEYS))
+            elif k == 'index_api':
+                Lc = A['model'].shape[0]
+                li = op['l'] % Lc
+                if op['which'] == 'get':
+                    got = lib('get', A['ma'].get, op['a'], op['b'])
+                    if not np.array_equal(np.asarray(got), np.asarray(A['ma'].data)[:, op['a'], op['b']]):
+                        raise Violation('get_by_index_wrong_slice', 'get', {'index': [op['a'], op['b']]}, step)
+                elif op['which'] == 'getMatrix':
+                    got = lib('getMatrix', A['ma'].getMatrix, li)
+                    if not np.array_equal(np.asarray(got), np.asarray(A['ma'].data)[li]):
+                        raise Violation('getMatrix_wrong_matrix', 'getMatrix', {'index': li}, step)
+                else:
+                    val = gen_data((seed, 'setM', step), 1, r)[0]
+                    lib('setMatrix', A['ma'].setMatrix, li, np.copy(val))
+                    A['model'] = np.copy(A['model'])
+                    A['model'][li] = val
+                    unchanged(before, snap(), {n for n, e in enumerate(pool) if e['ma'] is A['ma']}, 'setMatrix', step)
+                    check_entry(A, 'setMatrix', step)
+                    if not np.array_equal(np.asarray(A['ma'].data)[li], val):
+                        raise Violation('setMatrix_did_not_write', 'setMatrix', {'index': li}, step)
+                if op['which'] != 'setMatrix':
+                    unchanged(before, snap(), set(), op['which'], step)
+                ctx.probe('index_api_' + op['which'])
             elif k == 'new_identity':
                 o.update(space=ro.choice(SPACES))
             ops.append(o)
@@ -148,6 +173,9 @@ class World(BaseWorld):
             m = e['model']
             if d.shape != m.shape:
                 raise Violation('shape_differs', site, {'got': list(d.shape), 'want': list(m.shape)}, step)
+            if getattr(e['ma'], 'length', None) != m.shape[0] or getattr(e['ma'], 'rank', None) != m.shape[1]:
+                raise Violation('length_or_rank_attribute_wrong', site, {'length': getattr(e['ma'], 'length', None), 'rank': getattr(e['ma'], 'rank', None),
+                                                                        'data_shape': list(m.shape)}, step)
             scale = max(1.0, float(np.max(np.abs(m))), mag[0] if mag else 1.0)
             err = float(np.max(np.abs(d - m))) if m.size else 0.0
             if not (err <= tol * scale):
@@ -294,14 +322,19 @@ class World(BaseWorld):
                         add_result(R, want, A['space'])
                 ctx.probe(pk)
             elif k == 'invert':
-                pk = 'invert%s' % ('_i' if op['inplace'] else '')
+                pk = 'invert%s' % ('_i' if op['inplace'] is True else '')
                 m = A['model']
                 conds = [np.linalg.cond(m[l]) for l in range(m.shape[0])]
                 if not np.all(np.isfinite(conds)) or max(conds) > 1e6:
                     ctx.log(skipped='ill-conditioned')
                     continue
                 want = np.stack([np.linalg.inv(m[l]) for l in range(m.shape[0])])
-                R = lib(pk, A['ma'].invert, inplace=op['inplace'])
+                if op['inplace'] == 'default':
+                    R = lib(pk, A['ma'].invert)          # documented default: out of place
+                    op = dict(op, inplace=False)
+                    ctx.probe('invert_default_args')
+                else:
+                    R = lib(pk, A['ma'].invert, inplace=op['inplace'])
                 tol = 1e-12 * max(conds) * 10
                 if op['inplace']:
                     if R is not A['ma']:
@@ -412,7 +445,7 @@ class World(BaseWorld):
     def expected_probes(self, tier):
         ex = ['broadcast_len1', 'refused_inplace', 'refused_outofplace', 'refused_dot', 'get_copy', 'two_inplace_same_array',
               'unknown_type_get', 'unknown_type_set', 'setitem_offdiag', 'invert', 'invert_i', 'length1', 'identity_array_in_pool',
-              'identity_created_after_inplace_ops', 'nd_1d_operand_length_equals_rank', 'unknown_type_looks_like_index', 'nd_r', 'nd_r1', 'nd_1r', 'nd_0d', 'nd_list_r',
+              'identity_created_after_inplace_ops', 'nd_1d_operand_length_equals_rank', 'unknown_type_looks_like_index', 'index_api_get', 'index_api_getMatrix', 'index_api_setMatrix', 'invert_default_args', 'nd_r', 'nd_r1', 'nd_1r', 'nd_0d', 'nd_list_r',
               'nd_full', 'nd_rr', 'nd_L11']
         if tier == 'thorough':
             for fn in sorted(BIN):
